@@ -7,6 +7,8 @@ import FeatModel.Lemmas.C11RoundTrip2
 import FeatModel.Lemmas.C11Ini
 import FeatModel.Lemmas.C11Sound2
 import FeatModel.Lemmas.C11Strict
+import FeatModel.Lemmas.C11Charts
+import FeatModel.Lemmas.C11XmlGrammar
 /-!
 # C11 — mesh/config files round-trip; malformed input is rejected without crashing
 
@@ -87,13 +89,30 @@ theorem C11.partition_close_complete (st st' : St) (line : Nat) (name : Str) (pr
     (∀ b ∈ hv, b = true) ∧ (patches.map List.length).sum = ne :=
   ⟨(closeTop_partition_flags hs h).1, (closeTop_partition_flags hs h).2.1⟩
 
-/-- an accepted root mesh (and every accepted part with its own topology) has no entity count of zero directly
-    below a non-zero one -/
+/-- an accepted root mesh and every accepted part with its own `topology="full"` have no entity count of zero directly
+    below a non-zero one (`deductNames text` = the `topology="parent"` parts, for which the reader does not check it) -/
 theorem C11.parser_sizes_no_zero_below (text : Str) (sh : Shape) (dim : Nat) (n : Node)
     (h : parseMeshFile text = .ok sh dim n) :
     (∀ m, n.mesh = some m → zeroBelow m.sizes = false) ∧
-    (∀ np ∈ n.parts, np.2.hasTopo = true → zeroBelow np.2.sizes = false) :=
+    (∀ np ∈ n.parts, np.1 ∉ deductNames text → np.2.hasTopo = true → zeroBelow np.2.sizes = false) :=
   ⟨fun _ hm => parseMeshFile_sizes_no_zero_below h hm, parseMeshFile_parts_no_zero_below h⟩
+
+/-- `topology="parent"`: the deduced topology is the restriction of the parent's index sets - every deduced index is a
+    position in the part's vertex mapping that maps back to the parent's vertex of that cell -/
+theorem C11.deduct_topology_spec (m : Mesh) (p : Part) (t : List (List (List Nat))) (h : deductTopo m p = some t) :
+    t.length = m.topo.length ∧ ∀ d, d < m.topo.length →
+      (t.getD d []).length = (p.maps.getD (d + 1) []).length ∧
+      ∀ k c : Nat, (p.maps.getD (d + 1) [])[k]? = some c → ∃ tup : List Nat, (t.getD d [])[k]? = some tup ∧
+        tup.length = ((m.topo.getD d []).getD c []).length ∧
+        ∀ j v : Nat, ((m.topo.getD d []).getD c [])[j]? = some v →
+          ∃ x : Nat, tup[j]? = some x ∧ x < (p.maps.getD 0 []).length ∧ (p.maps.getD 0 [])[x]? = some v :=
+  S2.deductTopo_spec h
+
+/-- every chart link of an accepted file resolves in the atlas of the result -/
+theorem C11.parser_chart_links (text : Str) (sh : Shape) (dim : Nat) (n : Node)
+    (h : parseMeshFile text = .ok sh dim n) :
+    ∀ np ∈ n.parts, np.2.chart = [] ∨ (mapFind strLt np.2.chart n.charts).isSome :=
+  parseMeshFile_chart_links h
 
 /-- the same two for the second-generation parse with a fixed mesh type -/
 theorem C11.reparse_soundness (sh sh' : Shape) (dim dim' : Nat) (text : Str) (n : Node)
@@ -119,27 +138,34 @@ theorem C11.parse_total (text : Str) :
 /-! ## `parse ∘ print = id` and `print ∘ parse ∘ print = print` -/
 
 /-- The round-trip statement in closed form, for every input text: whatever the parser returns for a file with a
-    root mesh is reproduced exactly by parsing its written form (`parse ∘ print ∘ parse = parse`). -/
-theorem C11.parse_print_parse (text : Str) (sh : Shape) (dim : Nat) (n : Node)
-    (h : parseMeshFile text = .ok sh dim n) (hm : n.mesh.isSome) :
+    root mesh is reproduced exactly by parsing its written form (`parse ∘ print ∘ parse = parse`).
+    `_partial` since charts and parent topology entered the model: proved for results without charts (`hc`) and files
+    without `topology="parent"` parts (`hd`); with parent parts `FeatModel.C11.parse_print_parse` needs in addition
+    that the deduced parts have no entity count of zero below a non-zero one (the reader does not check that for
+    parent parts, the writer prints them as `topology="full"`: finding K12). Charts are covered for explicitly given
+    nodes by `C11.parse_print_node_charts_partial`. -/
+theorem C11.parse_print_parse_partial (text : Str) (sh : Shape) (dim : Nat) (n : Node)
+    (h : parseMeshFile text = .ok sh dim n) (hm : n.mesh.isSome) (hc : n.charts = [])
+    (hd : deductNames text = []) :
     parseMeshFile (printMeshFile sh dim n) = .ok sh dim n :=
-  FeatModel.C11.parse_print_parse text sh dim n h hm
+  parse_print_parse_noparent text sh dim n h hm hc hd
 
 /-- byte-for-byte clause in closed form: writing the re-parsed node reproduces the first output -/
-theorem C11.print_parse_print_parse (text : Str) (sh : Shape) (dim : Nat) (n : Node)
-    (h : parseMeshFile text = .ok sh dim n) (hm : n.mesh.isSome) (sh' : Shape) (dim' : Nat) (n' : Node)
+theorem C11.print_parse_print_parse_partial (text : Str) (sh : Shape) (dim : Nat) (n : Node)
+    (h : parseMeshFile text = .ok sh dim n) (hm : n.mesh.isSome) (hc : n.charts = [])
+    (hd : deductNames text = []) (sh' : Shape) (dim' : Nat) (n' : Node)
     (h' : parseMeshFile (printMeshFile sh dim n) = .ok sh' dim' n') :
     printMeshFile sh' dim' n' = printMeshFile sh dim n := by
-  rw [FeatModel.C11.parse_print_parse text sh dim n h hm] at h'
+  rw [parse_print_parse_noparent text sh dim n h hm hc hd] at h'
   cases h'
   rfl
 
 /-- files without a root mesh (mesh parts / partitions only): the written root markup has no mesh type, the parse
     with the known type gives the node back -/
-theorem C11.parse_print_reparse (text : Str) (sh : Shape) (dim : Nat) (n : Node)
-    (h : parseMeshFile text = .ok sh dim n) (hm : n.mesh = none) :
+theorem C11.parse_print_reparse_partial (text : Str) (sh : Shape) (dim : Nat) (n : Node)
+    (h : parseMeshFile text = .ok sh dim n) (hm : n.mesh = none) (hc : n.charts = []) :
     parseMeshFile (printMeshFile sh dim n) = .notype ∧ reparse sh dim (printMeshFile sh dim n) = .ok sh dim n :=
-  FeatModel.C11.parse_print_reparse text sh dim n h hm
+  FeatModel.C11.parse_print_reparse text sh dim n h hm hc
 
 /-- Mesh node with a root mesh, any number of mesh parts (mappings, optional own topology, attribute sets) and
     partitions, every supported mesh type and every size: parsing the written file gives back exactly the node.
@@ -202,6 +228,66 @@ theorem C11.ini_roundtrip_bytes (replace : Bool) (es : List (Str × Str)) (f : I
     (hes : ∀ kv ∈ es, IniRT.EntOk kv) (hsorted : IniRT.SortedKeys es) (hf : f.Ok) :
     (iniRead replace (iniWrite (IniRT.treeMap es f))).map iniWrite = some (iniWrite (IniRT.treeMap es f)) :=
   ini_roundtrip_tree_bytes replace es f hes hsorted hf
+
+/-- Charts (Circle in 2D, Sphere in 3D): a node with an atlas of well-formed charts (`ChartOk`: non-empty admissible
+    name, kind matching the dimension, radius ≥ the reader's threshold, non-degenerate circle domain; sorted by name)
+    is reproduced exactly - chart parameters are exact rationals printed as `p/q`, so this is an identity of the
+    printed decimal strings as well.  `_partial`: mesh parts that link to a chart (`chart="…"`), and the Bezier /
+    SurfaceMesh / Extrude chart kinds, are not covered. -/
+theorem C11.parse_print_node_charts_partial (sh : Shape) (dim : Nat) (m : Mesh) (parts : List (Str × Part))
+    (partitions : List Partition) (charts : List (Str × Chart))
+    (hs : supported sh dim dim = true) (hwf : m.wf sh dim = true) (h64 : ∀ s ∈ m.sizes, s < 2 ^ 64)
+    (hzb : zeroBelow m.sizes = false)
+    (hp : ∀ np ∈ parts, PartOkFull sh dim np.1 np.2)
+    (hsorted : parts.Pairwise (fun a b => strLt a.1 b.1 = true))
+    (hpt : ∀ p ∈ partitions, PartitionOk p)
+    (hmap : mapOutOfRange { mesh := some m, parts := parts, partitions := partitions } = false)
+    (hch : ∀ nc ∈ charts, ChartOk dim nc.1 nc.2)
+    (hcs : charts.Pairwise (fun a b => strLt a.1 b.1 = true)) :
+    parseMeshFile (printMeshFile sh dim { mesh := some m, parts := parts, partitions := partitions, charts := charts })
+      = .ok sh dim { mesh := some m, parts := parts, partitions := partitions, charts := charts } :=
+  parse_print_node_charts sh dim m parts partitions charts hs hwf h64 hzb hp hsorted hpt hmap hch hcs
+
+/-- malformed chart input is rejected: a midpoint with a wrong number of coordinates -/
+theorem C11.circle_bad_midpoint_rejected (line : Nat) (m : Markup) (ms : Str)
+    (h2 : attrOf m "midpoint" = some ms) (h4 : (splitWs ms).length ≠ 2) : circleCreate line m = gErr line :=
+  circleCreate_bad_midpoint line m ms h2 h4
+
+/-- a `<Chart>` without a chart element cannot be closed -/
+theorem C11.empty_chart_rejected (st : St) (line : Nat) (name : Str) (rest : List Frame)
+    (hs : st.stack = Frame.chart name none :: rest) : closeTop st line = gErr line :=
+  closeTop_empty_chart st line name rest hs
+
+/-! ## XML scanner: soundness and completeness with respect to the line grammar -/
+
+/-- on EVERY byte string the scanner (with the recording parser) either yields events or a SyntaxError whose line
+    number is a line of the input -/
+theorem C11.scan_error_is_syntax (text : Str) (e : Err) (h : scanDoc text = .error e) :
+    e.cls = .syntax ∧ 1 ≤ e.line ∧ e.line ≤ (splitLines text).length :=
+  ⟨XG.scanDoc_error_class h, XG.scanDoc_error_line h⟩
+
+/-- every accepted document is the event list of a well-formed tree (one root element, properly nested, valid names,
+    sorted attribute maps, text only inside elements) -/
+theorem C11.scan_ok_is_tree (text : Str) (evs : List Event) (h : scanDoc text = .ok evs) :
+    ∃ line m children closeLine,
+      evs = (XG.Items.node line m children closeLine .nil).events ∧ (XG.Items.node line m children closeLine .nil).WF :=
+  XG.scanDoc_ok_tree h
+
+/-- every markup the scanner accepts is well-formed -/
+theorem C11.scan_markup_sound (s : Str) (m : Markup) (h : scanMarkup s = .ok (some m)) : XG.MarkupOK m :=
+  (XG.scanMarkup_sound h).1
+
+/-- grammar completeness, line level: every markup line of the documented grammar, with arbitrary white space
+    (blanks, tabs, CR, … after `<`, around `=`, before `/` and `>`) and any admissible quoted values, is scanned to the
+    intended markup (first occurrence of a key wins, values trimmed) -/
+theorem C11.scan_markup_complete (w0 w1 w2 : Str) (termin : Bool) (name : Str) (attrs : List XG.AttrL)
+    (w3 : Str) (closed : Bool) (w4 w5 : Str)
+    (hw0 : XG.AllWs w0) (hw1 : XG.AllWs w1) (hw2 : XG.AllWs w2) (hw3 : XG.AllWs w3) (hw4 : XG.AllWs w4)
+    (hw5 : XG.AllWs w5) (hn : validName name = true) (ha : ∀ a ∈ attrs, a.OK)
+    (hsep : ∀ a, attrs.head? = some a → a.sep ≠ []) (ht : termin = true → attrs = [] ∧ closed = false) :
+    scanMarkup (trim (XG.renderMarkup w0 w1 w2 termin name attrs w3 closed w4 w5)) =
+      .ok (some { name := name, attrs := XG.attrMap attrs, closed := closed, termin := termin }) :=
+  XG.scanMarkup_complete hw0 hw1 hw2 hw3 hw4 hw5 hn ha hsep ht
 
 /-! ## number layer (`String::parse<T>` against `operator<<`) -/
 
